@@ -3,6 +3,36 @@
 SYMBOLIC_CRYPTO = "symbolic (Dolev-Yao) AEAD/hash: seal/H are free constructors (INT-CTXT, collision-freeness idealised; DESIGN §3)"
 
 PROPS = {
+    "C01": {
+        "lean": "CedarProps.C01",
+        "engines": ["framing"],
+        "oracle_engine": {"framing": "stream", "codec": "codec"},
+        "trusted": [SYMBOLIC_CRYPTO],
+        "technique": "Lean 4 theorems (round-trip by induction over accepted frame chains; send-accepts-implies-receive-accepts by case analysis) + correspondence on real streams over boundary sizes and all short compositions",
+        "level_text": "frame_roundtrip (bytes), send_accept_recv_accept (every frame a sender accepts passes the receiver's checks, both modes, first and later frames), messages_roundtrip_plain / _encrypted (ReceiveCompleteMessage loop returns exactly the sent messages for every accepted send history), typed-layer chunking theorems; kernel-checked over the model. Tied to the code by the framing and codec engines on real streams (sizes around 4 KiB / 16 KiB / 1 MiB ± GCM overhead; every composition of short messages; incremental and complete receive APIs).",
+        "level_note": "TCP delivery reliable and in order; symbolic AEAD; model hand-written, validated by correspondence; limits regenerated from source.",
+        "assumptions": ["net.Conn delivers bytes reliably and in order"],
+    },
+    "C12": {
+        "lean": "CedarProps.C12",
+        "engines": ["gcmformat"],
+        "oracle_engine": {"gcmformat": "stream"},
+        "trusted": [SYMBOLIC_CRYPTO, "refcodec: independent implementation of the documented frame format (same Go crypto primitives)"],
+        "technique": "Lean 4 theorems (wire format by unfolding; nonce distinctness by invariant over arbitrary operation histories) + translation validation against an independent reference codec in both directions",
+        "level_text": "wire_format, first_aad_digests, nonce_sequence / nonces_distinct (any interleaving of sends, buffered writes, secrets, crypto toggles and receives; imported counters), refuses_wrap, iv_once: kernel-checked over the model. ref_accepts_impl / impl_accepts_ref are discharged by the gcmformat engine: every frame real streams emit is opened by refcodec, refcodec-built frames are fed to the real receiver, counters near 2^32 via NewStreamWithCryptoState.",
+        "level_note": "Distinct RNG draws are distinct (crypto/rand); symbolic AEAD in the model, real AES-256-GCM in the correspondence.",
+        "assumptions": ["crypto/rand yields fresh IVs"],
+    },
+    "C15": {
+        "lean": "CedarProps.C15",
+        "engines": ["handoff"],
+        "oracle_engine": {"handoff": "stream"},
+        "trusted": [SYMBOLIC_CRYPTO],
+        "technique": "Lean 4 theorems (refusal condition iff, field-exact restore, rejection lemmas) + correspondence over traffic histories with export attempted at every step, chains of hand-offs, all truncations and single-byte corruptions of a blob",
+        "level_text": "export_refused_iff, export_contents, import_export (all crypto/framing fields restored verbatim), import_rejects_{short,magic,version}, readVar_truncated: kernel-checked. Continuation after hand-off inherits C02/C12 via recv_prefix_midstream and nonce_sequence (counter and IV restored). Tied to the code by the handoff engine (export at clean and unclean points on either end, chained hand-offs, continued two-way traffic checked by refcodec, every truncation/corruption of a valid blob).",
+        "level_note": "fd passing itself out of scope; digests are carried as opaque bytes after import (unused once both first frames passed).",
+        "assumptions": ["the blob travels over a trusted local channel (as documented)"],
+    },
     "C02": {
         "lean": "CedarProps.C02",
         "engines": ["tamper"],
